@@ -440,6 +440,10 @@ func (g *gstate) opPages() {
 			p, c = 1<<20-2, 1 // the last pages: legal
 		}
 	}
+	if r.Chance(1, 150) { // a few hundred pages at once (the legal maximum, a million pages, is not generated)
+		p, c = uint64(16+r.Intn(40)), uint64(150+r.Intn(200))
+		g.st.Inc("op-pages-hundreds")
+	}
 	g.emit("g,%d,%d,%d,%d", n, p, c, mode)
 	g.st.Inc(fmt.Sprintf("op-pages-r%d", min(mode, 7)))
 }
@@ -622,7 +626,10 @@ func genHistory(r *h.Rng, st h.Stats) string {
 
 func gen(r *h.Rng, tier string, emit func(string)) {
 	st := h.Stats{}
-	n := 5000
+	// verifh seeds are consecutive splitmix states (seed k+1 = seed k advanced by one draw): re-key on a
+	// mixed output so that different seeds give unrelated histories
+	r = h.NewRng(r.U64())
+	n := 4000
 	if tier == "thorough" {
 		n = 100000
 	}
